@@ -7,6 +7,7 @@ import (
 	_ "verif/checks/s08"
 	_ "verif/checks/s09"
 	_ "verif/checks/s11"
+	_ "verif/checks/s13"
 	_ "verif/checks/s14"
 )
 
